@@ -108,7 +108,7 @@ class Block:
         return self.header() + (self.auxpow or b"") + cs(len(self.txs), self.w_txs) + b"".join(t.enc() for t in self.txs)
 
 
-def auxpow_section(rnd, coinbase=None, nbranch1=None, nbranch2=None):
+def auxpow_section(rnd, coinbase=None, nbranch1=None, nbranch2=None, parent_version=None):
     cb = coinbase or Tx([(b"\0" * 32, 0xffffffff, bytes(rnd.randrange(256) for _ in range(rnd.randrange(2, 60))), 0xffffffff)], [(rnd.randrange(1 << 40), b"\x51")])
     n1 = rnd.randrange(0, 12) if nbranch1 is None else nbranch1
     n2 = rnd.randrange(0, 6) if nbranch2 is None else nbranch2
@@ -116,7 +116,7 @@ def auxpow_section(rnd, coinbase=None, nbranch1=None, nbranch2=None):
     b = cb.enc() + rb(32)
     b += cs(n1) + rb(32 * n1) + struct.pack("<I", rnd.randrange(1 << 32))
     b += cs(n2) + rb(32 * n2) + struct.pack("<I", rnd.randrange(1 << 32))
-    b += rb(80)
+    b += rb(80) if parent_version is None else struct.pack("<I", parent_version & 0xffffffff) + rb(76)
     return b
 
 
